@@ -20,7 +20,7 @@
 #ifndef TBOX_COROUTINE_SEMAPHORE_HPP_20180527
 #define TBOX_COROUTINE_SEMAPHORE_HPP_20180527
 
-#include <queue>
+#include <deque>
 #include "scheduler.h"
 
 namespace tbox {
@@ -33,13 +33,18 @@ class Semaphore {
 
     //! 请求资源，注意：只能是协程调用
     bool acquire () {
-        if (count_ == 0) {      //! 如果没有资源，则等待
-            token_.push(sch_.getToken());
-            do {
-                sch_.wait();
-                if (sch_.isCanceled())
-                    return false;
-            } while (count_ == 0);
+        //! 如果没有资源，则等待。每次进入等待前都重新登记，醒来后注销
+        while (count_ == 0) {
+            RoutineToken self = sch_.getToken();
+            token_.push_back(self);
+            sch_.wait();
+            removeToken(self);
+            if (sch_.isCanceled()) {
+                //! 自己被取消了，如果还有资源，要把唤醒机会让给其它等待者
+                if (count_ != 0)
+                    wakeOne();
+                return false;
+            }
         }
 
         --count_;
@@ -48,12 +53,8 @@ class Semaphore {
 
     //! 释放资源
     void release() {
-        if (count_ == 0 && !token_.empty()) {
-            auto t = token_.front();
-            token_.pop();
-            sch_.resume(t);
-        }
         ++count_;
+        wakeOne();  //! 每释放一个资源，都唤醒一个等待者
     }
 
     inline bool count() const { return count_; }
@@ -61,8 +62,27 @@ class Semaphore {
   private:
     Scheduler &sch_;
 
+    //! 唤醒最早的一个还能被唤醒的等待者
+    void wakeOne() {
+        while (!token_.empty()) {
+            RoutineToken t = token_.front();
+            token_.pop_front();
+            if (sch_.resume(t))
+                break;
+        }
+    }
+
+    void removeToken(const RoutineToken &t) {
+        for (auto it = token_.begin(); it != token_.end(); ++it) {
+            if (it->equal(t)) {
+                token_.erase(it);
+                break;
+            }
+        }
+    }
+
     int count_;
-    std::queue<RoutineToken> token_;
+    std::deque<RoutineToken> token_;
 };
 
 }
